@@ -217,15 +217,22 @@ impl NoGoodStore {
                 DuplicateElemination::None => true,
                 DuplicateElemination::Equiv => !self.store[idx].contains(&nogood),
                 DuplicateElemination::Subsume => {
-                    self.store
-                        .iter_mut()
-                        .enumerate()
-                        .for_each(|(cur_idx, ng_vec)| {
-                            if idx >= cur_idx {
-                                ng_vec.retain(|ng| !ng.is_violating(&nogood));
-                            }
-                        });
-                    true
+                    if self.store.iter().enumerate().any(|(cur_idx, ng_vec)| {
+                        idx >= cur_idx && ng_vec.iter().any(|ng| ng.is_violating(&nogood))
+                    }) {
+                        // an already stored nogood subsumes the new one
+                        false
+                    } else {
+                        self.store
+                            .iter_mut()
+                            .enumerate()
+                            .for_each(|(cur_idx, ng_vec)| {
+                                if idx <= cur_idx {
+                                    ng_vec.retain(|ng| !nogood.is_violating(ng));
+                                }
+                            });
+                        true
+                    }
                 }
             } {
                 self.store[idx].push(nogood);
